@@ -5,5 +5,7 @@ cd "$(dirname "$0")"
 export CARGO_NET_OFFLINE=true
 (cd harness && cargo build --release --offline)
 (cd nativecheck && cargo build --release --offline)
-if [ -d loomcheck ]; then (cd loomcheck && cargo build --release --offline); fi
+# loomcheck is built against an instrumented copy of /repo (see ./check)
+python3 loomcheck/instrument.py .instrumented/repo
+(cd loomcheck && cargo build --release --offline)
 mkdir -p evidence
